@@ -268,7 +268,7 @@ PROPS = {
         "runs": [
             {"family": "task", "flags": [], "quick": {"cases": 400, "max_len": 40}, "thorough": {"cases": 20000, "max_len": 80}},
         ],
-        "judge_preds": ["api-valid", "old-values", "object", "end-rule", "reserved", "modified-once"],
+        "judge_preds": ["api-valid", "old-values", "object", "end-rule", "reserved", "modified-once", "depmap"],
         "nontrivial": lambda imp, ops: sum(1 for l in ops if l.startswith("M ")) >= 3 and any(l == "P" for l in ops),
         "rule": TASK_RULE + "; non-trivial = at least three mutator calls and a commit; distinct by SHA-1",
         "trusted_base": TB_COMMON + ["Utc::now() is read by the harness inside the same second as the mutator (the harness waits when the clock is within 150 ms of a second boundary)"],
